@@ -1,6 +1,9 @@
 import A2Verif.Lemmas.C06Pascal
-import A2Verif.Lemmas.C06DosOps
+import A2Verif.Lemmas.C06ExDos
 import A2Verif.Lemmas.C06Cpm
+import A2Verif.Lemmas.C06ExFat
+import A2Verif.Lemmas.C06ExProdos
+import A2Verif.Model.Read.ProdosT
 import A2Verif.Lemmas.FsPascalInv
 import A2Verif.Model.Read.Dos3x
 /-!
@@ -234,38 +237,7 @@ theorem exec_coh {d : Disk} (h : Coh d) (steps : List Reload.Dos.Step) : Coh (ex
 
 /-! ### non-vacuity and the negative witness -/
 
-/-- a blank 35-track image with `c` sectors per track -/
-def blank (c : Nat) : Disk :=
-  { raw := { unitLen := 256, units := Array.replicate (35 * c) (List.replicate 256 0) }, c := c, vtoc := none }
-
-theorem blank_coh (c : Nat) : Coh (blank c) := by
-  refine coh_closed ⟨by decide, rfl, ?_⟩
-  intro u hu
-  rw [Array.toList_replicate] at hu
-  rw [List.eq_of_mem_replicate hu, List.length_replicate]
-
-def exA : FImg := { fullPath := [72, 105], fsType := [4], chunks := [(0, [7, 7, 7, 7]), (2, [1, 2, 3])] }
-/-- `init32` on a blank D13 image, then a sparse file of two data sectors: three sectors are reserved in the buffer -/
-def exD : Disk := (exec (blank 13) [.op (.init 254 13), .op (.put exA)]).2
-
-theorem exD_coh : Coh exD := by
-  unfold exD
-  exact exec_coh (blank_coh 13) _
-
-def freeOf (x : R Nat × Disk) : Nat := match x.1 with | .ok n => n | .error _ => 99999
-
-/-- the variant of `get_img` that forgets the buffer, followed by `load` -/
-def reloadForgetful (d : Disk) : Disk := match saveForgetful d with | .ok b => load d.c b | .error _ => d
-
-theorem reloadForgetful_eq {d : Disk} (h : Coh d) : reloadForgetful d = ⟨d.raw, d.c, none⟩ := by
-  unfold reloadForgetful saveForgetful load
-  simp only
-  rw [ofBytes_toBytes h.shaped]
-
-set_option maxRecDepth 1000000 in
-/-- the example object has 426 free sectors, 3 fewer than the image underneath it shows: the allocations of the `put`
-live only in the VTOC buffer -/
-theorem exD_free : freeOf (statFree exD) = 426 ∧ freeOf (statFree ⟨exD.raw, exD.c, none⟩) = 429 := by decide +kernel
+open A2Verif.Reload.Dos (blank blank_coh exA exD exD_coh freeOf reloadForgetful reloadForgetful_eq exD_free)
 
 /-- **negative witness**: if `get_img` did not write the VTOC buffer back, clause 3 would fail on `exD` — the reloaded
 volume reports 429 free sectors instead of 426.  So `reload_observes_same` is not vacuous: it does depend on the flush. -/
@@ -415,5 +387,167 @@ example : exec exD exBlank [.op (.format [] none), .reload, .op (.put exA [0, 0,
     exec exD exBlank [.op (.format [] none), .op (.put exA [0, 0, 0, 0]), .op .catalog] := history_with_reloads _ exBlank_coh
 
 end Cpm
+
+/-! ## FAT (the FAT buffer) -/
+namespace Fat
+open A2Verif.Fs.Fat A2Verif.Reload.Fat
+
+/-- C06 (FAT12), preservation: every operation — `put`, `delete`, `rename`, `lock`, `unlock`, `retype`, `mkdir` and the
+queries; successful, refused, or failing part-way (e.g. a `put` refused with `DiskFull` after its directory grew) — keeps
+the coherence condition `Coh` (static geometry `Geo`; the FAT buffer is open and well-formed, or closed with every FAT
+copy on the image holding one well-formed table). -/
+theorem coh_preserved {d : Disk} (h : Coh d) (o : Op) : Coh (o.run d).2 := (op_sim (dsim_refl h) o).2.coh
+
+/-- C06 (FAT12), clauses 1–6.  For every coherent object `d` with saved bytes `b` and `d' = load (save d)`: the catalog
+of every directory, every `get`, the free count are the same; the flushed images are equal, hence the independent
+reader reads the same volume; a second save gives identical bytes; and every operation answers the same and leads to
+objects that save to the same bytes.  In `d` the FAT buffer may hold allocations that are nowhere on the image; in `d'`
+the buffer is closed and is re-opened (with the repair against the backup copies) from the saved FAT. -/
+theorem reload_observes_same {d : Disk} (h : Coh d) {b : Bytes} (hb : save d = .ok b) :
+    let d' := load d.raw.unitLen d.labelFiles b
+    (∀ path, (catalog path d').1 = (catalog path d).1) ∧
+    (∀ path, (get path d').1 = (get path d).1) ∧
+    (statFree d').1 = (statFree d).1 ∧
+    (flush d').2.raw = (flush d).2.raw ∧
+    Read.FatT.readT (flush d').2.raw = Read.FatT.readT (flush d).2.raw ∧
+    save d' = .ok b ∧
+    ∀ o : Op, (o.run d').1 = (o.run d).1 ∧ save (o.run d').2 = save (o.run d).2 := by
+  intro d'
+  obtain ⟨b', hb', hr⟩ := save_ok h
+  rw [hb] at hb'
+  cases hb'
+  have hs : DSim d d' := by have := reload_dsim h; rw [hr] at this; exact this
+  refine ⟨fun p => (run_sim (fun P => Resp.catalog (P := P) p) hs).1, fun p => (run_sim (fun P => Resp.get (P := P) p) hs).1,
+    (run_sim (fun P => Resp.statFree (P := P)) hs).1, dsim_flush_raw hs, by rw [dsim_flush_raw hs], by rw [dsim_save hs, hb], ?_⟩
+  intro o
+  obtain ⟨e, s⟩ := op_sim hs o
+  exact ⟨e, dsim_save s⟩
+
+/-- C06 (FAT12), whole histories: saving and loading between any operations of any history changes no answer, and the
+final objects save to the same bytes. -/
+theorem history_with_reloads {d : Disk} (h : Coh d) (steps : List Reload.Fat.Step) :
+    (exec d steps).1 = (exec d (opsOf steps)).1 ∧ save (exec d steps).2 = save (exec d (opsOf steps)).2 := by
+  obtain ⟨e, s⟩ := exec_sim steps (dsim_refl h)
+  exact ⟨e, dsim_save s⟩
+
+theorem exec_coh {d : Disk} (h : Coh d) (steps : List Reload.Fat.Step) : Coh (exec d steps).2 :=
+  (exec_sim steps (dsim_refl h)).2.coh'
+
+/-! ### non-vacuity and the negative witness -/
+
+open A2Verif.FsFat (exDisk)
+open A2Verif.Reload.Fat (exDisk_coh' exD exD_coh freeOf reloadForgetful reloadForgetful_eq exD_free)
+
+/-- **negative witness**: if `get_img` did not write the FAT buffer back, clause 3 would fail on `exD` -/
+theorem forgetful_flush_loses_deallocations : freeOf (statFree (reloadForgetful exD)) ≠ freeOf (statFree exD) := by
+  rw [reloadForgetful_eq exD_coh, exD_free.1, exD_free.2]; decide
+
+/-- … whereas with the real `save` the free count survives (instance of clause 3) -/
+example : (statFree (reload exD)).1 = (statFree exD).1 := by
+  obtain ⟨b, hb, hr⟩ := save_ok exD_coh
+  rw [hr]
+  exact (reload_observes_same exD_coh hb).2.2.1
+
+example : (exec exDisk [.op (.delete [65, 46, 66]), .reload, .op .statFree, .reload, .op (.catalog [])]).1 =
+    (exec exDisk [.op (.delete [65, 46, 66]), .op .statFree, .op (.catalog [])]).1 :=
+  (history_with_reloads exDisk_coh' _).1
+
+end Fat
+
+/-! ## ProDOS (the volume bitmap buffer) -/
+namespace Prodos
+open A2Verif.Fs.Prodos A2Verif.Reload.Prodos
+
+/-- C06 (ProDOS), the buffer survives: on the reloaded object `open_bitmap_buffer` restores exactly the buffer that
+`get_img()` wrote — every allocation and de-allocation that lived only in memory is on the image. -/
+theorem reopen_restores_buffer {d : Disk} {b : Array Nat} (h : Coh d) (hb : d.bitmap = some b) :
+    getBitmap (reload d) = (.ok b, openTwin d b) := by
+  rw [reload_open h hb]; exact reopen h hb
+
+/-- `get_img()` succeeds on a coherent object, and `reload` is `load ∘ save` -/
+theorem save_ok {d : Disk} (h : Coh d) : ∃ bytes, save d = .ok bytes ∧ reload d = load bytes := by
+  cases hb : d.bitmap with
+  | none => exact ⟨_, by unfold save; rw [flush_closed hb], by unfold reload save; rw [flush_closed hb]⟩
+  | some b => exact ⟨_, by unfold save; rw [flush_open h hb], by unfold reload save; rw [flush_open h hb]⟩
+
+/-- C06 (ProDOS), clauses 1–5, and clause 6 **for the queries only** (`…_partial`).  For every coherent object `d`
+(`Coh`: 512-byte blocks, `total_blocks` = image size, an open buffer sits where the volume header points, a closed one
+has no bitmap blocks recorded) with saved bytes and `d' = load (save d)`: `catalog` of every directory, `get` of every
+path and the free count answer the same; the images handed out by `get_img()` are equal, hence the independent reader
+reads the same volume; a second save gives identical bytes.
+
+**Missing for the full clause 6** (continuation of *modifying* operations): before its buffer is re-opened the reloaded
+object does not know which blocks are bitmap blocks (`bitmap_blocks` is empty), so `write_block`'s refusal to write a
+bitmap block and `zap_block`'s dropping of the buffer are not armed.  An operation that writes before it touches the
+bitmap (`lock`, `rename`, `retype`: `write_entry` first, `allocate_block` afterwards) behaves the same only if the
+directory block it writes is not a bitmap block — a well-formedness property of the volume (no directory, index or
+data pointer designates a bitmap block, the bitmap marks its own blocks used) that needs the refinement invariant of
+the ProDOS model, which is not proved preserved (`design/FsProdos.md`).  Likewise `Coh` is proved here for the states
+the theorem is applied to, not preserved along modifying operations (it is re-established whenever the buffer is
+opened: `openBitmap_closed`). -/
+theorem reload_observes_same_partial {d : Disk} (h : Coh d) (hclosed : d.bitmap = none → d.bitmapBlocks = []) {bytes : Bytes}
+    (hs : save d = .ok bytes) :
+    let d' := load bytes
+    (∀ path, (catalog path d').1 = (catalog path d).1) ∧
+    (∀ path, (get path d').1 = (get path d).1) ∧
+    (statFree d').1 = (statFree d).1 ∧
+    (d'.flush).2.raw = (d.flush).2.raw ∧
+    Read.ProdosT.read (d'.flush).2.raw = Read.ProdosT.read (d.flush).2.raw ∧
+    save d' = .ok bytes := by
+  intro d'
+  obtain ⟨b2, hs2, hr⟩ := save_ok h
+  rw [hs] at hs2
+  cases hs2
+  have hd' : d' = reload d := hr.symm
+  cases hb : d.bitmap with
+  | none =>
+    have e : reload d = d := by
+      rw [reload_closed h hb]
+      cases d
+      simp only at hb
+      have := hclosed hb
+      simp only at this
+      subst hb this
+      rfl
+    rw [hd', e]
+    exact ⟨fun _ => rfl, fun _ => rfl, rfl, rfl, rfl, hs⟩
+  | some b =>
+    have e : reload d = closedTwin d b := reload_open h hb
+    rw [hd', e]
+    have hf : (closedTwin d b).flush = (.ok (), closedTwin d b) := flush_closed rfl
+    have hfd := flush_open h hb
+    refine ⟨fun p => ((RespQ.catalog p).out d b h hb _ (Or.inl rfl)).2.1, fun p => ((RespQ.get p).out d b h hb _ (Or.inl rfl)).2.1,
+      (RespQ.statFree.out d b h hb _ (Or.inl rfl)).2.1, by rw [hf, hfd]; rfl, by rw [hf, hfd]; rfl, ?_⟩
+    unfold save at hs ⊢
+    rw [hfd] at hs
+    rw [hf]
+    exact hs
+
+/-- C06 (ProDOS), clause 6 for sequences of queries: after a reload any sequence of `catalog`/`get`/`stat` requests is
+answered as without the reload (the reloaded object re-opens its buffer on the way and stays a twin). -/
+theorem queries_after_reload {d : Disk} {b : Array Nat} (h : Coh d) (hb : d.bitmap = some b) {α β : Type} {m1 : M α} {m2 : M β}
+    (h1 : RespQ m1) (h2 : RespQ m2) :
+    (m1 (reload d)).1 = (m1 d).1 ∧ (m2 (m1 (reload d)).2).1 = (m2 (m1 d).2).1 := by
+  rw [reload_open h hb]
+  obtain ⟨e0, e1, t1⟩ := h1.out d b h hb _ (Or.inl rfl)
+  refine ⟨e1, ?_⟩
+  rw [e0]
+  exact (h2.out d b h hb _ t1).2.1
+
+/-! ### non-vacuity and the negative witness -/
+
+open A2Verif.Reload.Prodos (blank exD cohB coh_of_cohB exD_coh freeOf reloadForgetful reloadForgetful_eq exD_free exD_closed)
+
+/-- **negative witness**: if `get_img` did not write the bitmap buffer back, clause 3 would fail on `exD` -/
+theorem forgetful_flush_loses_bitmap : freeOf (statFree (reloadForgetful exD)) ≠ freeOf (statFree exD) := by
+  rw [reloadForgetful_eq exD_coh, exD_free.1, exD_free.2]; decide
+
+/-- … whereas with the real `save` the free count survives (instance of clause 3) -/
+example : (statFree (reload exD)).1 = (statFree exD).1 := by
+  obtain ⟨bytes, hs, hr⟩ := save_ok exD_coh
+  rw [hr]
+  exact (reload_observes_same_partial exD_coh exD_closed hs).2.2.1
+
+end Prodos
 
 end A2Verif.C06Reload
